@@ -36,6 +36,49 @@ def parse(s, fmt):
         return {"error": type(e).__name__}
 
 
+_drv = []
+SENTINEL = 424242.125
+
+
+def element_path(s):
+    """the text as a peer sends it: an XML newNumberVector through the library's parser to a driver's number element"""
+    if any((ord(ch) < 32 and ch not in "\t\n\r") or 0xD800 <= ord(ch) <= 0xDFFF or ord(ch) in (0xFFFE, 0xFFFF) for ch in s):
+        return {"skipped": True}
+    from xml.sax.saxutils import escape
+    from indi.message import IndiMessage
+    if not _drv:
+        from indi.device import Driver
+        from indi.device.properties import Group, Number, NumberVector
+
+        class Router:
+            def register_device(self, d):
+                pass
+
+            def process_message(self, msg, sender=None):
+                pass
+        cls = type("NumDrv", (Driver,), {"name": "NUMDEV", "main": Group("MAIN", vectors={
+            "nv": NumberVector("NV", elements={"e": Number("E", default=0, format="%f"), "m": Number("M", default=0, format="%.6m")})})})
+        _drv.append(cls(router=Router()))
+    drv = _drv[0]
+    els = [drv.main.nv._elements["e"], drv.main.nv._elements["m"]]
+    for el in els:
+        el._value = SENTINEL
+    xml = ('<newNumberVector device="NUMDEV" name="NV"><oneNumber name="E">%s</oneNumber><oneNumber name="M">%s</oneNumber></newNumberVector>'
+           % (escape(s), escape(s)))
+    try:
+        msg = IndiMessage.from_string(xml)
+    except Exception:  # noqa
+        return {"rejected": True}
+    try:
+        drv.message_from_client(msg)
+    except Exception as e:  # noqa
+        return {"raised": "%s: %s" % (type(e).__name__, str(e)[:80])}
+    res = []
+    for el in els:
+        res.append({"unchanged": True} if el._value == SENTINEL else out(el._value))
+    return {"values": res}
+
+
 def run_case(c):
     from indi.device import values
     if c["type"] == "render":
@@ -48,4 +91,5 @@ def run_case(c):
         return {"status": "ok", "text": s, "valid": accepted(s), "back": parse(s, c["fmt"]),
                 "back_other": parse(s, "%f" if "m" in c["fmt"] else "%.6m")}
     s = c["text"]
-    return {"status": "ok", "valid": accepted(s), "as_f": parse(s, "%f"), "as_m": parse(s, "%.3m"), "as_m9": parse(s, "%12.9m")}
+    return {"status": "ok", "valid": accepted(s), "as_f": parse(s, "%f"), "as_m": parse(s, "%.3m"), "as_m9": parse(s, "%12.9m"),
+            "as_elem": element_path(s)}
